@@ -1,8 +1,9 @@
 (* C10 -- crash model of the OCI layout store (content/oci/oci.go, storage.go).
 
-   Executable model only (no proofs).  The store runs with its default
-   AutoSaveIndex = true and with AutoGC = false (plain Delete); GC is not
-   modelled (defects F1-F4 of Delete-with-AutoGC / GC belong to C08/C09).
+   Executable model only (no proofs).  Primitive operations: Push, Tag, Untag, plain
+   Delete, SaveIndex, Forget (the in-memory half of GC).  Delete with AutoGC and GC are
+   lists of primitives executed in a row (steps_seq); which nodes a cascade or a sweep
+   visits is C09's subject.  [autosave] is Store.AutoSaveIndex.
 
    Every operation of an initialised store is compiled, in program order, to the
    list of file-system micro-steps it issues (one per mutating system call, plus
